@@ -2,15 +2,22 @@ package main
 
 import (
 	"fmt"
+	"os"
+	"path/filepath"
+	"regexp"
+	"runtime"
+	"sort"
 	"strconv"
 	"strings"
 
 	"github.com/jcmoraisjr/haproxy-ingress/pkg/haproxy"
 	hatypes "github.com/jcmoraisjr/haproxy-ingress/pkg/haproxy/types"
 	types_helper "github.com/jcmoraisjr/haproxy-ingress/pkg/types/helper_test"
+	"github.com/jcmoraisjr/haproxy-ingress/pkg/utils"
 
 	"hapverif/gen"
 	"hapverif/hvutil"
+	"hapverif/world"
 )
 
 func init() {
@@ -28,6 +35,16 @@ func init() {
 				steps = append(steps, c02parseEPs(st))
 			}
 			c11hist(c, c02parseFlags(a[1]), n, steps)
+		case len(a) == 5 && a[0] == "multi":
+			n, _ := strconv.Atoi(a[1])
+			cfgs, steps, ok := c11parseMulti(a[3], a[4])
+			if !ok {
+				fmt.Fprintln(os.Stderr, "C11: unparsable multi case")
+				return
+			}
+			r := c11multi(n, cfgs, steps)
+			c.emit("C11", r.args, r.out)
+			c.stat("multi", 1)
 		}
 	}
 }
@@ -252,3 +269,303 @@ func runC11(c *ctx) {
 		}
 	}
 }
+
+// ---------------------------------------------------------------------------------------------
+// multi: whole histories over a STORE of several backends through the real haproxy.Instance
+// (external mode, real templates, simulated master/admin sockets): HAProxyUpdate = Shrink, dynamic
+// updater (checkBackendPair per re-created backend, alignSlots over every item when reloading),
+// writeConfig (main file or the changed shard files), reload.  A step re-creates a subset of the
+// backends the way the converters do on a partial sync (RemoveAll + AcquireBackend + endpoints without
+// empty slots); the others are bystanders.  `other` = a change outside the backends in the same batch
+// (a global setting), which needs a reload whatever the backends say.
+// Observed per step: was `reload` sent to the master socket; per backend the commands sent, the
+// endpoints held by the in-memory model and the server lines read back from the files on disk.
+
+var c11names = []string{"a", "b", "c", "e"}
+
+func c11id(i int) string { return "d_" + c11names[i] + "_8080" }
+
+type c11step struct {
+	other bool
+	recr  []*[]c02ep // nil = bystander
+}
+
+type c11res struct{ args, out string }
+
+func c11stepText(st c11step) string {
+	p := make([]string, len(st.recr))
+	for i, r := range st.recr {
+		if r == nil {
+			p[i] = "."
+		} else {
+			p[i] = c02fmtEPs(*r)
+		}
+	}
+	return b2s(st.other) + ":" + strings.Join(p, "&")
+}
+
+func c11parseMulti(cfgTxt, stepsTxt string) ([]c02flags, []c11step, bool) {
+	var cfgs []c02flags
+	for _, t := range strings.Split(cfgTxt, ";") {
+		cfgs = append(cfgs, c02parseFlags(t))
+	}
+	var steps []c11step
+	for _, t := range strings.Split(stepsTxt, "|") {
+		p := strings.SplitN(t, ":", 2)
+		if len(p) != 2 {
+			return nil, nil, false
+		}
+		st := c11step{other: p[0] == "1"}
+		for _, rt := range strings.Split(p[1], "&") {
+			if rt == "." {
+				st.recr = append(st.recr, nil)
+			} else {
+				eps := c02parseEPs(rt)
+				st.recr = append(st.recr, &eps)
+			}
+		}
+		if len(st.recr) != len(cfgs) {
+			return nil, nil, false
+		}
+		steps = append(steps, st)
+	}
+	if len(cfgs) == 0 || len(cfgs) > len(c11names) || len(steps) == 0 {
+		return nil, nil, false
+	}
+	for _, r := range steps[0].recr {
+		if r == nil {
+			return nil, nil, false // the first update creates every backend
+		}
+	}
+	return cfgs, steps, true
+}
+
+// the shard the REAL store puts a backend in
+func c11shardOf(shards int, id int) int {
+	if shards == 0 {
+		return 0
+	}
+	bs := hatypes.CreateBackends(shards)
+	b := bs.AcquireBackend("d", c11names[id], "8080")
+	for k := 0; k < shards; k++ {
+		for _, x := range bs.BuildSortedShard(k) {
+			if x == b {
+				return k
+			}
+		}
+	}
+	return shards
+}
+
+var c11reSetServer = regexp.MustCompile(`^set server (\S+)/`)
+
+// server lines of the backends as HAProxy would load them: every *.cfg of the directory
+func c11disk(cfgDir string, n int) []string {
+	res := make([]string, n)
+	cfg, err := world.LoadConfig(cfgDir)
+	for i := 0; i < n; i++ {
+		res[i] = "?"
+		if err != nil {
+			continue
+		}
+		sec := cfg.Backends[c11id(i)]
+		if sec == nil {
+			continue
+		}
+		var eps []c02ep
+		for _, l := range sec.Lines {
+			if len(l) < 3 || l[0] != "server" {
+				continue
+			}
+			e := c02ep{name: l[1], enabled: true, weight: 1}
+			if k := strings.LastIndex(l[2], ":"); k > 0 {
+				e.ip = l[2][:k]
+				e.port, _ = strconv.Atoi(l[2][k+1:])
+			} else {
+				e.ip = l[2]
+			}
+			for j := 3; j < len(l); j++ {
+				switch l[j] {
+				case "disabled":
+					e.enabled = false
+				case "weight":
+					if j+1 < len(l) {
+						e.weight, _ = strconv.Atoi(l[j+1])
+					}
+				}
+			}
+			eps = append(eps, e)
+		}
+		res[i] = c02fmtEPs(eps)
+	}
+	if err == nil && len(cfg.Dup) > 0 {
+		for i := range res {
+			res[i] = "?"
+		}
+	}
+	return res
+}
+
+func c11multi(shards int, cfgs []c02flags, steps []c11step) c11res {
+	n := len(cfgs)
+	so := make([]string, n)
+	for i := range so {
+		so[i] = strconv.Itoa(c11shardOf(shards, i))
+	}
+	ct := make([]string, n)
+	for i, f := range cfgs {
+		f.same = true
+		ct[i] = f.String()
+	}
+	stt := make([]string, len(steps))
+	for i, st := range steps {
+		stt[i] = c11stepText(st)
+	}
+	args := fmt.Sprintf("multi %d %s %s %s", shards, strings.Join(so, "."), strings.Join(ct, ";"), strings.Join(stt, "|"))
+	out := func() (res string) {
+		dir, err := os.MkdirTemp("", "c11multi")
+		if err != nil {
+			panic(err)
+		}
+		defer os.RemoveAll(dir)
+		defer func() {
+			if r := recover(); r != nil {
+				res = "PANIC"
+				if os.Getenv("C11_LOG") != "" {
+					fmt.Fprintf(os.Stderr, "C11 panic on %s: %v\n", args, r)
+				}
+			}
+		}()
+		cfgDir, mapsDir := filepath.Join(dir, "cfg"), filepath.Join(dir, "maps")
+		for _, d := range []string{cfgDir, mapsDir, filepath.Join(cfgDir, "errorfiles"), filepath.Join(cfgDir, "lua"), filepath.Join(dir, "var/run/haproxy")} {
+			if err := os.MkdirAll(d, 0755); err != nil {
+				panic(err)
+			}
+		}
+		sim := world.NewSim(cfgDir)
+		inst := haproxy.CreateInstance(&hvutil.Logger{}, haproxy.InstanceOptions{
+			RootFSPrefix:   "/repo/rootfs",
+			LocalFSPrefix:  dir,
+			BackendShards:  shards,
+			HAProxyCfgDir:  cfgDir,
+			HAProxyMapsDir: mapsDir,
+			IsExternal:     true,
+			MasterSocket:   filepath.Join(dir, "master.sock"),
+			AdminSocket:    filepath.Join(dir, "admin.sock"),
+			Metrics:        types_helper.NewMetricsMock(),
+		})
+		if err := inst.ParseTemplates(); err != nil {
+			panic(err)
+		}
+		haproxy.VerifSetSockets(inst, sim.Master(), sim.Admin())
+		cfg := inst.Config()
+		cfg.Global().MatchOrder = hatypes.DefaultMatchOrder
+		var outs []string
+		for k, st := range steps {
+			var dirty []string
+			for i, r := range st.recr {
+				if r != nil && k > 0 {
+					dirty = append(dirty, c11id(i))
+				}
+			}
+			cfg.Backends().RemoveAll(dirty)
+			for i, r := range st.recr {
+				if r == nil {
+					continue
+				}
+				b := cfg.Backends().AcquireBackend("d", c11names[i], "8080")
+				c02fill(b, cfgs[i], *r)
+			}
+			if st.other {
+				cfg.Global().MaxConn = 2000 + k
+			}
+			reloads, ncmd := sim.ReloadTr, len(sim.Cmds)
+			uerr := inst.HAProxyUpdate(utils.NewTimer(nil))
+			// commands per backend, one exec = three `set server` commands
+			percmd := make([][]string, n)
+			cmds := sim.Cmds[ncmd:]
+			for j := 0; j+2 < len(cmds) || j < len(cmds); j += 3 {
+				hi := j + 3
+				if hi > len(cmds) {
+					hi = len(cmds)
+				}
+				who := -1
+				if m := c11reSetServer.FindStringSubmatch(cmds[j]); m != nil {
+					for i := 0; i < n; i++ {
+						if m[1] == c11id(i) {
+							who = i
+						}
+					}
+				}
+				if who < 0 {
+					who = 0
+					percmd[who] = append(percmd[who], "BAD:"+strings.ReplaceAll(cmds[j], " ", "_"))
+					continue
+				}
+				percmd[who] = append(percmd[who], c02canonCall(cmds[j:hi]))
+			}
+			cs := make([]string, n)
+			mem := make([]string, n)
+			for i := 0; i < n; i++ {
+				cs[i] = "-"
+				if len(percmd[i]) > 0 {
+					cs[i] = strings.Join(percmd[i], ",")
+				}
+				mem[i] = "?"
+				if b := cfg.Backends().Items()[c11id(i)]; b != nil {
+					mem[i] = c02fmtEPs(c02read(b))
+				}
+			}
+			rl := b2s(sim.ReloadTr != reloads)
+			if uerr != nil || sim.LoadErr != "" {
+				rl = "E"
+			}
+			outs = append(outs, rl+"/"+strings.Join(cs, "&")+"/"+strings.Join(mem, "&")+"/"+strings.Join(c11disk(cfgDir, n), "&"))
+		}
+		return strings.Join(outs, ";")
+	}()
+	return c11res{args, out}
+}
+
+// c11jobs: cases are computed by a pool of workers and emitted in generation order
+type c11jobs struct {
+	c    *ctx
+	jobs []func() c11res
+}
+
+func (j *c11jobs) add(f func() c11res) { j.jobs = append(j.jobs, f) }
+
+func (j *c11jobs) flush(stat string) {
+	workers := runtime.NumCPU()
+	if workers > 8 {
+		workers = 8
+	}
+	if v, err := strconv.Atoi(os.Getenv("C11_WORKERS")); err == nil && v > 0 {
+		workers = v
+	}
+	res := make([]c11res, len(j.jobs))
+	next := make(chan int)
+	done := make(chan bool)
+	for w := 0; w < workers; w++ {
+		go func() {
+			for i := range next {
+				res[i] = j.jobs[i]()
+			}
+			done <- true
+		}()
+	}
+	for i := range j.jobs {
+		next <- i
+	}
+	close(next)
+	for w := 0; w < workers; w++ {
+		<-done
+	}
+	for _, r := range res {
+		j.c.emit("C11", r.args, r.out)
+		j.c.stat(stat, 1)
+	}
+	j.jobs = nil
+}
+
+var _ = sort.Strings
